@@ -1,5 +1,6 @@
 """C01 - StatsD lines aggregate to exactly the predicted Prometheus series."""
 import e2e_engine as E2E
+import genproof
 import gen_line as GL
 import gen_mapper as GM
 import gen_pipeline as GP
@@ -46,7 +47,7 @@ def monitor(rep, case, impl, model, payload):
                 return
 
 
-def run(rep, tier, seed, replay):
+def _run(rep, tier, seed, replay):
     if replay and E2E.replay_case(rep, "C01", replay):
         rep.cov.setdefault("trusted_base", ["end-to-end replay of one case against the built binary"])
         rep.cov.setdefault("rule", "replay of one end-to-end case")
@@ -55,6 +56,8 @@ def run(rep, tier, seed, replay):
         # the real binary over its sockets against the same model (main.go's wiring)
         E2E.run(rep, "C01", tier, seed, n_quick=60, n_thorough=3000)
         E2E.run(rep, "C01", tier, seed, n_quick=3, n_thorough=40, gen=E2E.gen_order_case, key="e2e_order")
+        # long uptime in one process: 20-66 thousand events on the same series, thousands of distinct series, 17-65 reloads
+        E2E.run(rep, "C01", tier, seed, n_quick=1, n_thorough=8, gen=E2E.gen_longrun_case, key="e2e_longrun")
     PC.run(rep, "C01", tier, seed, replay, gen_case, monitor, 400, 20000,
            "%(n)d (config x stream) cases: configs from the YAML grammar (glob/regex rules, $n labels, honor_labels, scale incl. 0/negative, observer "
            "types, histogram/summary options, match_metric_type, drop, defaults, ttl), 5-40 lines over all five stat types x four tag styles x sampling "
@@ -67,3 +70,9 @@ def run(rep, tier, seed, replay):
         rep.cov["trusted_base"] = list(rep.cov["trusted_base"]) + [
             "end-to-end engine: real time is not controlled (TTL-free configurations only); a scrape is taken once every sent line is counted and three consecutive scrapes agree; "
             "the sign of a zero value is not observable in the text exposition"]
+
+
+def run(rep, tier, seed, replay):
+    _run(rep, tier, seed, replay)
+    if not replay:
+        genproof.digest_obligation(rep, "a digest stands in for a string that identifies a series or a cache entry (two different names or label sets with equal digests would be served as one)")
